@@ -278,4 +278,46 @@ PROPS['C15'] = {
     'level_note': 'angles sampled; sizes small',
 }
 
+PROPS['C07'] = {
+    'modes': [(0, 8), (1, 8)],
+    'budget': {'quick': 50, 'thorough': 300},
+    'deciding': {'C07.normal-form': (800, 8000)},
+    'require_hist': {'quick': {}, 'thorough': {}},
+    'rule': 'cases = 1-3 documented patterns (lazy/diagonal/orthogonal inverses, consecutive rotations and transposes, rotation-HWP, '
+            'polariser-HWP, polariser-rotation-HWP, the four block pairs, P@P.T for duplicate-free indexing and packing, P.T@P for one '
+            'indexed axis, reshape/ravel and move-axis with their transposes) embedded at every position of inert contexts of length 0-6 '
+            '(quick) / 0-14 (thorough), with 0-4 scalar factors sprinkled, on wide and tall chains, built through @ in random association '
+            'order or through the constructor; after reduce() the flat chain must contain no identity, at most one scalar factor with the '
+            'product of the injected values on the side with fewer elements, and no adjacent pair matching one of nine forbidden-residue '
+            'predicates written from the documentation (not from the rule registry). case key = (pattern set, left/right context length, '
+            'wide/tall, number of scalars); non-trivial = context length >= 1 or >= 2 patterns',
+    'assumptions': ['inert context operators (dense, diagonal, Toeplitz, broadcast-diagonal) are not spoken about by any documented pattern',
+                    'result correctness is the business of C01; nested (non-flattened) compositions are outside this check',
+                    'an operator X and its lazy inverse are only required to collapse when X.I.operator is X (X already reduced and returned unchanged by reduce())'],
+    'technique': 'runtime observation of reduce() results judged by independent forbidden-residue predicates over the result chain',
+    'level_text': 'exploration: thousands of pattern/context/scalar placements; the reduced chain is inspected structurally (no dense algebra).',
+    'level_note': 'says nothing about map preservation (C01) nor about patterns nested inside block operators',
+}
+
+TAGGED = ['IdentityOperator:orthogonal=True', 'IdentityOperator:diagonal=True', 'HomothetyOperator:diagonal=True',
+          'DiagonalOperator:diagonal=True', 'DiagonalInverseOperator:diagonal=True', 'HWPOperator:diagonal=True',
+          'QURotationOperator:orthogonal=True', 'QURotationTransposeOperator:orthogonal=True',
+          'SymmetricBandToeplitzOperator:symmetric=True', 'ToastObservationMatrixOperator:square=True']
+PROPS['C08'] = {
+    'modes': [(0, 8), (1, 8)],
+    'budget': {'quick': 40, 'thorough': 300},
+    'deciding': {'C08.tags': (2000, 20000), 'C08.untagged': (500, 5000)},
+    'require_hist': {'quick': {'C08.answers': TAGGED}, 'thorough': {'C08.answers': TAGGED}},
+    'rule': 'cases = every operator instance met in seeded atoms/composites (the operator and every operator nested in it) plus dedicated '
+            'instances of each tagged class (batched Toeplitz bands, negative scalars, angle arrays of every broadcastable shape, Toast '
+            'matrices); the seven lineax tag functions and the two furax declarations (square: out_structure is in_structure; orthogonal: '
+            'inverse is transpose, detected below the monitor wrappers) are queried; every tag answered True is checked on the reference '
+            'dense matrix of that instance (M=M^T and A.T is A; off-diagonal zero; triangles zero; band; eigenvalues of the symmetric part; '
+            'M^T M = I and M(A.I) = M^T; equal structures). case key = (class, tag, parameter form, structure kind); non-trivial = tag True',
+    'assumptions': COMMON_ASSUMPTIONS + ['a tag can only be refuted on the parameter values generated; "never tagged if it can fail" is sampled'],
+    'technique': 'runtime tag queries on live operator instances, each True answer checked against the reference dense matrix',
+    'level_text': 'exploration: thousands of instances of all classes; every True tag is verified on the instance\'s dense matrix.',
+    'level_note': 'sampled parameters',
+}
+
 NOT_APPLICABLE: dict[str, str] = {}
